@@ -300,7 +300,7 @@ def _graph_equality(part, depth):
     from .. import algebra
 
     with worlds.world("posc") as db:
-        states, _t = algebra.explore(db, depth)
+        states, _t = algebra.explore(db, depth, reciprocals=True)
         qs = [st.scalar.GetQuantity() for st in states]
         ss = [Scalar.CreateWithQuantity(q, 1.5) for q in qs]
         part.count("graph_states", len(states))
